@@ -155,6 +155,11 @@ def replay(ctx, payload):
         print("expected", s[:500])
         print("observed", str(got)[:500])
         return 0 if got == want or (s == "novalid" and info["status"] != "ok") else 1
+    if kind == "hist-cli":
+        r = hist_via_cli(ctx, payload["case"])
+        m, s = core.run_model(ctx, [payload["case"]])[0]
+        print("cli:  ", r[:1500]); print("model:", m[:1500]); print("spec: ", s[:1500])
+        return 0 if core.res_eq(r, m) and (s == "-" or core.res_eq(r, s)) else 1
     if kind == "table-cell":
         from skaverif import props
         n, bad = props.c15_cells(ctx)
@@ -1185,3 +1190,157 @@ def c18_cli(ctx, broken):
     if planted_total >= 20 and recall < 0.9:
         res["violation"] = {"kind": "c18", "what": f"only {found_total} of {planted_total} planted indels reported (< 90%)"}
     return res
+
+
+# ----------------------------------------------------------------------------- histories through the CLI
+
+CLI_FT = {"nofilter": "no-filter", "noconst": "no-const", "noambig": "no-ambig", "noambigorconst": "no-ambig-or-const"}
+
+
+def nk_dump(d, path):
+    code, out, err = ska(["nk", "--full-info", path], d)
+    if code != 0:
+        return None, None
+    info = parse_nk(out)
+    rows = ",".join(f"{k}:{''.join(v)}" for k, v in sorted(info["rows"].items())) or "~"
+    names = ",".join(info.get("names", [])) or "~"
+    dump = f"k={info['k']},rc={1 if info['rc'] == 'true' else 0},names={names};rows={rows}"
+    counts = ",".join(str(x) for x in info.get("counts", [])) or "~"
+    return dump, counts
+
+
+def hist_via_cli(ctx, line):
+    """execute one `hist` case line through the ska binary; returns the canonical result string"""
+    kv = kvs(line)
+    w, k, rc = kv["w"], int(kv["k"]), kv["rc"] == "1"
+    d = fresh_dir(ctx, "histcli")
+    cur = os.path.join(d, "cur.skf")
+    core.run_impl(ctx, [f"mkskf w={w} k={k} rc={kv['rc']} table={kv['start']} out={cur}"], "mk")
+    step = 0
+    names_style = sum(line.encode()) % 2
+    if kv["ops"] != "~":
+        for op in kv["ops"].split(";"):
+            step += 1
+            f = op.split("/")
+            before = open(cur, "rb").read()
+            if f[0] == "merge":
+                ok_, orc = (int(f[2]) if len(f) > 2 else k), (f[3] if len(f) > 3 else kv["rc"])
+                wo = 64 if ok_ <= 31 else 128
+                if ok_ == k:
+                    wo = w
+                other = os.path.join(d, f"other{step}.skf")
+                core.run_impl(ctx, [f"mkskf w={wo} k={ok_} rc={orc} table={f[1]} out={other}"], "mk")
+                code, out, err = ska(["merge", cur, other, "-o", os.path.join(d, f"m{step}")], d)
+                if code == 0:
+                    os.replace(os.path.join(d, f"m{step}.skf"), cur)
+            elif f[0] == "delete":
+                names = [] if f[1] == "~" else f[1].split("+")
+                names_style += 1
+                if not names:
+                    code = 1   # clap refuses an empty name list: nothing to run
+                elif names_style % 2 == 0:
+                    nf = os.path.join(d, f"names{step}.txt")
+                    open(nf, "w").write("\n".join(names) + "\n")
+                    code, out, err = ska(["delete", "-s", cur, "-f", nf], d)
+                else:
+                    code, out, err = ska(["delete", "-s", cur] + names, d)
+            elif f[0] == "weed":
+                args = ["weed", cur]
+                if f[1] != "~":
+                    wf = os.path.join(d, f"weed{step}.fa")
+                    write_fasta(wf, f[1].split("+"))
+                    args.append(wf)
+                code, out, err = ska(["nk", cur], d)
+                n = len(parse_nk(out).get("names", []))
+                tf = int(f[3])
+                mf = 0.0 if tf == 0 else min(1.0, (tf + 0.5) / n)
+                args += ["--min-freq", repr(mf), "--filter", CLI_FT[f[5]]]
+                if f[2] == "1":
+                    args.append("--reverse")
+                if f[4] == "1":
+                    args.append("--filter-ambig-as-missing")
+                if f[6] == "1":
+                    args.append("--ambig-mask")
+                if f[7] == "1":
+                    args.append("--no-gap-only-sites")
+                code, out, err = ska(args, d)
+                if code != 0 and "no valid sequence" in err:
+                    dump, _ = nk_dump(d, cur)
+                    same = open(cur, "rb").read() == before
+                    return f"step{step}:novalid;file={dump if same else 'CHANGED'}"
+            elif f[0] == "reload":
+                code = 0
+            if code != 0:
+                same = open(cur, "rb").read() == before
+                dump, _ = nk_dump(d, cur)
+                return f"step{step}:refused;file={dump if same else 'CHANGED:' + str(dump)}"
+    out_parts = []
+    for ob in kv["obs"].split(";"):
+        f = ob.split("/")
+        code, o, e = ska(["nk", cur], d)
+        n = len(parse_nk(o).get("names", []))
+        if f[0] == "nk":
+            dump, counts = nk_dump(d, cur)
+            out_parts.append(f"nk[{dump};counts={counts}]")
+        elif f[0] == "align":
+            t = int(f[1])
+            mf = 0.0 if t == 0 or n == 0 else min(1.0, (t - 0.5) / n)
+            args = ["align", cur, "--min-freq", repr(mf), "--filter", CLI_FT[f[2]]]
+            if f[3] == "1":
+                args.append("--ambig-mask")
+            if f[4] == "1":
+                args.append("--no-gap-only-sites")
+            if f[5] == "1":
+                args.append("--filter-ambig-as-missing")
+            code, o, e = ska(args, d)
+            names = [l[1:] for l in o.splitlines() if l.startswith(">")]
+            seqs = [l for l in o.splitlines() if not l.startswith(">")]
+            while len(seqs) < len(names):
+                seqs.append("")
+            cols = sorted("".join(s_[i] for s_ in seqs) for i in range(len(seqs[0]))) if seqs and seqs[0] else []
+            out_parts.append(f"align[names={','.join(names) or '~'};cols={','.join(cols) or '~'}]")
+        elif f[0] == "dist":
+            t = int(f[1])
+            mf = 0.0 if t == 0 or n == 0 else min(1.0, (t - 0.5) / n)
+            args = ["distance", cur, "--min-freq", repr(mf)] + ([] if f[2] == "1" else ["--allow-ambiguous"])
+            code, o, e = ska(args, d)
+            items = []
+            for l in o.splitlines()[1:]:
+                p = l.split("\t")
+                items.append(f"{p[0]}-{p[1]}:~{round(float(p[2]) * 100)}:~{round(float(p[3]) * 100000)}")
+            out_parts.append(f"dist[{','.join(items) or '~'}]")
+        else:
+            out_parts.append("-")
+    return " ".join(out_parts)
+
+
+def make_hist_cli(prop, nquick, nthorough):
+    def fn(ctx, broken):
+        n = nthorough if ctx.tier == "thorough" else nquick
+        if broken:
+            n *= 3
+        cases = [c for c in core.gen_cases(prop, "quick", ctx.seed + 4242) if c.startswith("hist ")]
+        rnd = random.Random(ctx.seed * 7 + 1)
+        rnd.shuffle(cases)
+        cases = [c for c in cases if "rawdist" not in c or True][:n]
+        # rawdist is an in-process observer only
+        cases = [re.sub(r";rawdist/\d+", "", c) for c in cases]
+        model = core.run_model(ctx, cases)
+        evals = nontriv = 0
+        samples = []
+        for c, (m, s) in zip(cases, model):
+            r = hist_via_cli(ctx, c)
+            evals += 1
+            if not r.startswith("step"):
+                nontriv += 1
+            ok = core.res_eq(r, m) and (s == "-" or core.res_eq(r, s))
+            if len(samples) < 1:
+                samples.append({"case": c[:300], "cli_result": r[:200]})
+            if not ok:
+                return {"summary": {"evaluations": evals, "nontrivial": nontriv},
+                        "violation": {"kind": "hist-cli", "case": c, "cli": r[:3000], "model": m[:3000], "spec": s[:3000]}}
+        return {"summary": {"evaluations": evals, "nontrivial": nontriv,
+                            "what": "the same histories through the ska binary (merge/delete incl. names file/weed/align/distance/nk with their command-line flags, in-place overwrite, width dispatch) vs model and table specification"},
+                "samples": samples}
+    fn.__name__ = f"hist_cli_{prop}"
+    return fn
